@@ -16,6 +16,7 @@ import Driver.SseClient
 import Driver.Resource
 import Driver.SqliteConn
 import Driver.StateStore
+import Driver.Timers
 
 def main (args : List String) : IO UInt32 := do
   let stdin ← IO.getStdin
@@ -37,4 +38,5 @@ def main (args : List String) : IO UInt32 := do
   | ["resource"] => Drv.loop stdin Drv.Resource.step {}; return 0
   | ["sqliteconn"] => Drv.loop stdin Drv.SqliteConn.step {}; return 0
   | ["statestore"] => Drv.loop stdin Drv.StateStore.step {}; return 0
+  | ["timers"] => Drv.loop stdin Drv.Timers.step {}; return 0
   | _ => IO.eprintln "usage: wfdriver <model>"; return 2
